@@ -115,34 +115,38 @@ theorem Inv.no_entry {s : TM} (h : Inv s) {id : String} (hn : s.tasks id = none)
 theorem startTask_nodbrp {s : TM} {d : TaskDef} (h : d.dbrps = []) : startTask s d = s := by
   simp [startTask, h]
 
-theorem startTask_forks {s : TM} {d : TaskDef} (h : d.dbrps ≠ []) (k : Key) :
+theorem startTask_executing {s : TM} {d : TaskDef} (h : (s.tasks d.id).isSome = true) : startTask s d = s := by
+  unfold startTask
+  by_cases hd : d.dbrps.isEmpty = true <;> simp [hd, h]
+
+theorem startTask_forks {s : TM} {d : TaskDef} (h : d.dbrps ≠ []) (hn : s.tasks d.id = none) (k : Key) :
     (startTask s d).forks k =
       if k ∈ d.keys then insertTask (s.forks k) d.id ⟨s.nextEdge, d⟩ else s.forks k := by
   have : d.dbrps.isEmpty = false := by simpa using h
-  simp [startTask, this, newFork, registerKeys_forks]
+  simp [startTask, this, hn, newFork, registerKeys_forks]
 
-theorem startTask_tasks {s : TM} {d : TaskDef} (h : d.dbrps ≠ []) :
+theorem startTask_tasks {s : TM} {d : TaskDef} (h : d.dbrps ≠ []) (hn : s.tasks d.id = none) :
     (startTask s d).tasks = upd s.tasks d.id (some ⟨s.nextEdge, d⟩) := by
   have : d.dbrps.isEmpty = false := by simpa using h
-  simp [startTask, this, newFork]
+  simp [startTask, this, hn, newFork]
 
-theorem startTask_keysOf {s : TM} {d : TaskDef} (h : d.dbrps ≠ []) (id : String) :
+theorem startTask_keysOf {s : TM} {d : TaskDef} (h : d.dbrps ≠ []) (hn : s.tasks d.id = none) (id : String) :
     (startTask s d).forkKeysOf id = if id = d.id then s.forkKeysOf d.id ++ d.keys else s.forkKeysOf id := by
   have : d.dbrps.isEmpty = false := by simpa using h
-  simp [startTask, this, newFork, registerKeys_keysOf]
+  simp [startTask, this, hn, newFork, registerKeys_keysOf]
 
 theorem startTask_log (s : TM) (d : TaskDef) : (startTask s d).log = s.log := by
   unfold startTask
-  by_cases h : d.dbrps.isEmpty = true <;> simp [h, newFork]
+  by_cases h : d.dbrps.isEmpty = true <;> by_cases h2 : (s.tasks d.id).isSome = true <;> simp [h, h2, newFork]
 
 theorem startTask_defaultRP (s : TM) (d : TaskDef) : (startTask s d).defaultRP = s.defaultRP := by
   unfold startTask
-  by_cases h : d.dbrps.isEmpty = true <;> simp [h, newFork]
+  by_cases h : d.dbrps.isEmpty = true <;> by_cases h2 : (s.tasks d.id).isSome = true <;> simp [h, h2, newFork]
 
-theorem mem_startTask_forks {s : TM} {d : TaskDef} (h : d.dbrps ≠ []) {k : Key} {x : String × Edge} :
+theorem mem_startTask_forks {s : TM} {d : TaskDef} (h : d.dbrps ≠ []) (hn : s.tasks d.id = none) {k : Key} {x : String × Edge} :
     x ∈ (startTask s d).forks k ↔
       (x ∈ s.forks k ∧ (k ∈ d.keys → x.1 ≠ d.id)) ∨ (k ∈ d.keys ∧ x = (d.id, ⟨s.nextEdge, d⟩)) := by
-  rw [startTask_forks h]
+  rw [startTask_forks h hn]
   by_cases hk : k ∈ d.keys
   · simp [hk, mem_insertTask]
   · simp [hk]
@@ -153,15 +157,15 @@ theorem Inv.startTask {s : TM} (hi : Inv s) {d : TaskDef} (hn : s.tasks d.id = n
   have hold : ∀ k, ∀ x ∈ s.forks k, x.1 ≠ d.id := fun k => hi.no_entry hn k
   constructor
   · intro k id e hm
-    rw [startTask_tasks hd]
-    rcases (mem_startTask_forks hd).mp hm with ⟨hm', _⟩ | ⟨hk, heq⟩
+    rw [startTask_tasks hd hn]
+    rcases (mem_startTask_forks hd hn).mp hm with ⟨hm', _⟩ | ⟨hk, heq⟩
     · have hne : id ≠ d.id := hold k _ hm'
       have := hi.entry k id e hm'
       simp [upd, hne, this]
     · obtain ⟨rfl, rfl⟩ := Prod.mk.inj heq
       simp [upd, hk]
   · intro id e ht
-    rw [startTask_tasks hd] at ht
+    rw [startTask_tasks hd hn] at ht
     by_cases hid : id = d.id
     · subst hid
       simp [upd] at ht
@@ -169,8 +173,8 @@ theorem Inv.startTask {s : TM} (hi : Inv s) {d : TaskDef} (hn : s.tasks d.id = n
     · simp [upd, hid] at ht
       exact hi.owner id e ht
   · intro id e ht k hk
-    rw [startTask_tasks hd] at ht
-    apply (mem_startTask_forks hd).mpr
+    rw [startTask_tasks hd hn] at ht
+    apply (mem_startTask_forks hd hn).mpr
     by_cases hid : id = d.id
     · subst hid
       simp [upd] at ht
@@ -180,13 +184,13 @@ theorem Inv.startTask {s : TM} (hi : Inv s) {d : TaskDef} (hn : s.tasks d.id = n
       left
       exact ⟨hi.reg id e ht k hk, fun _ => hid⟩
   · intro k
-    rw [startTask_forks hd]
+    rw [startTask_forks hd hn]
     by_cases hk : k ∈ d.keys
     · simp only [hk, if_true]; exact keys_nodup_insertTask _ _ (hi.nodup k)
     · simp only [hk, if_false]; exact hi.nodup k
   · intro k id e hm
-    rw [startTask_keysOf hd]
-    rcases (mem_startTask_forks hd).mp hm with ⟨hm', _⟩ | ⟨hk, heq⟩
+    rw [startTask_keysOf hd hn]
+    rcases (mem_startTask_forks hd hn).mp hm with ⟨hm', _⟩ | ⟨hk, heq⟩
     · have hne : id ≠ d.id := hold k _ hm'
       simp [hne]; exact hi.listed k id e hm'
     · obtain ⟨rfl, rfl⟩ := Prod.mk.inj heq
